@@ -17,8 +17,9 @@ Empties(dom) == IF dom = "str" THEN {FullStrTab[i] : i \in 1..EmptyN} ELSE {i - 
 
 Experiments ==
   UNION {IF InstTab[n].cls = "monoid"
-         THEN {[inst |-> n, e |-> e, a |-> a, b |-> b] : e \in Empties(InstTab[n].dom), a \in DomOf(InstTab[n].dom), b \in DomOf(InstTab[n].dom)}
-         ELSE {[inst |-> n, e |-> 0, a |-> a, b |-> b] : a \in DomOf(InstTab[n].dom), b \in DomOf(InstTab[n].dom)}
+         THEN {[inst |-> n, e |-> e, inner |-> IF n \in Nested THEN InnerEmpty(InstTab[n].dom, e) ELSE 0, a |-> a, b |-> b] :
+                 e \in Empties(InstTab[n].dom), a \in DomOf(InstTab[n].dom), b \in DomOf(InstTab[n].dom)}
+         ELSE {[inst |-> n, e |-> 0, inner |-> 0, a |-> a, b |-> b] : a \in DomOf(InstTab[n].dom), b \in DomOf(InstTab[n].dom)}
          : n \in Insts}
 
 Init == x \in Experiments
@@ -35,9 +36,13 @@ IsPrefix(s, t) == Len(s) <= Len(t) /\ SubSeq(t, 1, Len(s)) = s
 SwapVisible == /\ d.logged /\ d.cls # "contramap" /\ x.a # x.b
                /\ (d.op = "concat" => ~IsPrefix(x.a, x.b) /\ ~IsPrefix(x.b, x.a))
                => ExpRes(d, x.a, x.b) # ExpRes(d, x.b, x.a)
+\* the nested constructors get an inner monoid whose empty element differs from the given one; flip and rot do not commute
+InnerDiffers == x.inst \in Nested => x.inner # x.e
+ProjectionsDoNotCommute == \E v \in Ints : Proj("flip", Proj("rot", v)) # Proj("rot", Proj("flip", v))
+RotIsPermutation == {Proj("rot", v) : v \in Ints} = Ints
 TableDistinct == Cardinality({FullStrTab[i] : i \in 1..Len(FullStrTab)}) = Len(FullStrTab)
 
-Emit == PrintT(ToJson([t |-> "case", inst |-> x.inst, e |-> x.e, a |-> x.a, b |-> x.b, want |-> ExpRes(d, x.a, x.b)]))
+Emit == PrintT(ToJson([t |-> "case", inst |-> x.inst, e |-> x.e, inner |-> x.inner, a |-> x.a, b |-> x.b, want |-> ExpRes(d, x.a, x.b)]))
 Dom == PrintT(ToJson([t |-> "dom", nint |-> NInt, strtab |-> FullStrTab, strn |-> StrN]))
 ASSUME Dom
 ====
